@@ -199,7 +199,7 @@ def point(ds, ap, cfg_, reg, sc, cfgseed):
             asks.append((other, oc[0]))
     if not asks:
         return None
-    sels = ["v", ["u", "w"], 0, [0, 1, 2]]
+    sels = ["v", ["u", "w"], 0, [0, 1, 2], [0, 1, 1, 2], ["u", "u", "w"]]
     keep = cfgseed % 2 == 0
     probes = {}
     for n, (ql, c) in enumerate(asks):
